@@ -300,7 +300,7 @@ def r131(ctx, rep, f, ev, cg, reach, O):
                 if "assign" in o and all(g == "true" for g in o["guard"]):
                     op, lhs, rhs = o["assign"]
                     nm = re.fullmatch(r"sym\(self\.(\w+)\)", lhs)
-                    val = {"0x1": 1, "sym(boolcast(true))": 1, "sym(boolcast(false))": 0}.get(rhs, rhs)
+                    val = {"0x1": 1, "0x0": 0, "sym(boolcast(true))": 1, "sym(boolcast(false))": 0}.get(rhs, rhs)
                     if op == "AddAssign" and nm:
                         if val != 0:
                             eff[nm.group(1)] = val
